@@ -49,6 +49,9 @@ func (e lfuEvictor[K, V]) evict(s *shard[K, V], statsEnabled bool) {
 	if lfu == nil {
 		return
 	}
+	if verifEnabled {
+		verifEv(verifEvLFUVictim, 0, 0, 0, lfu.key)
+	}
 	s.dropItem(lfu, statsEnabled, RemovedCapacity, dropLRU)
 }
 
